@@ -283,8 +283,8 @@ def attack(a, d, s):
     it_s = None
 
   # Attack and decay lines
-  m_a = 1. / a
-  m_d = (s - 1.) / d
+  m_a = 1. / a if a else 0. # Unused slope when the segment has no sample
+  m_d = (s - 1.) / d if d else 0.
   len_a = int(a + .5)
   len_d = int(d + .5)
   for sample in xrange(len_a):
@@ -375,9 +375,9 @@ def adsr(dur, a, d, s, r):
   0.0, having peak value of 1.0.
 
   """
-  m_a = 1. / a
-  m_d = (s - 1.) / d
-  m_r = - s * 1. / r
+  m_a = 1. / a if a else 0. # Unused slope when the segment has no sample
+  m_d = (s - 1.) / d if d else 0.
+  m_r = - s * 1. / r if r else 0.
   len_a = int(a + .5)
   len_d = int(d + .5)
   len_r = int(r + .5)
